@@ -192,7 +192,8 @@ def main(argv=None):
         outs = pool.map(_worker, jobs, chunksize=1)
     # a contract with an undecided obligation is run once more, alone and with three times the solver budget: `unknown` under
     # load (all cores busy with the other contracts) must not flip a verdict
-    redo = [i for i, o in enumerate(outs) if any(r['status'] == 'unknown' for r in o['results'])]
+    redo = [i for i, o in enumerate(outs) if any(r['status'] == 'unknown' for r in o['results'])
+            and not o['info'].get('budget_cut') and not any(r['status'] == 'failed' for r in o['results'])]
     if redo and not os.environ.get('PYVC_NO_RETRY'):
         os.environ['PYVC_TIMEOUT_SCALE'] = '3'
         with mp.Pool(min(4, len(redo)), maxtasksperchild=1) as pool:
